@@ -278,8 +278,10 @@ class CodonDataType(AbstractDataType):
 
         encoding = 65
         if n1 <= 3 and n2 <= 3 and n3 <= 3:
-            encoding = n1 * 16 + n2 * 4 + n3
-            encoding -= self.stop_count[encoding]
+            index = n1 * 16 + n2 * 4 + n3
+            # a stop codon is not a state: it is unknown, not the previous codon
+            if self.table[index] != '*':
+                encoding = index - self.stop_count[index]
         return encoding
 
     def partial(self, string: str, use_ambiguities=True) -> tuple[float, ...]:
